@@ -3,6 +3,7 @@ import Driver.UpcastDrv
 import Driver.BusDrv
 import Driver.StoreDrv
 import Driver.StateDrv
+import Driver.NamesDrv
 open Driver
 
 def runDomain (dom : String) (lines : Array String) : Array String :=
@@ -12,6 +13,7 @@ def runDomain (dom : String) (lines : Array String) : Array String :=
   | "store" => StoreDrv.runCase lines
   | "state" => StateDrv.runCase lines
   | "wirecheck" => StateDrv.runWire lines
+  | "names" => NamesDrv.runCase lines
   | _ => #["unknown-domain " ++ dom]
 
 def main (args : List String) : IO UInt32 := do
